@@ -68,21 +68,22 @@ def candMoves (sh : Shape) (g : Ph) (nSinks : Nat) (next : Int) : List (Move Int
 abbrev MoveFilter (β : Type) := List (Ev Int β) → Move Int → Bool
 def noFilter {β} : MoveFilter β := fun _ _ => true
 
-def legalMoves {St Loc β} (M : Machine St Loc Int β) (nSinks : Nat) (s : Sys St Loc Int β) (R : MoveFilter β := noFilter) :
-    List (Move Int × Sys St Loc Int β) :=
+def legalMoves {St Loc β} (M : Machine St Loc Int β) (nSinks : Nat) (s : Sys St Loc Int β) (R : MoveFilter β := noFilter)
+    (wide : Nat := 0) : List (Move Int × Sys St Loc Int β) :=
   ((candMoves M.shape s.g.ph nSinks (dataSent s.tr + 1)).filter (R s.tr)).filterMap fun m =>
-    match envMoveX M s m with
+    -- `wide`: 0 = the conformance automaton `legalIn` of the theorems; 1 = plus cross-sink calls; 2 = the cross-peer environment (EnvX.lean)
+    match (if wide == 0 then envMove M s m else if wide == 1 then envMoveCS M s m else envMoveX M s m) with
     | some s1 => some (m, settle M s1)
     | none => none
 
 /-- all maximal conformant scripts of at most `depth` moves (every history of that length, no state de-duplication) -/
 partial def leaves {St Loc β} (M : Machine St Loc Int β) (nSinks depth : Nat) (s : Sys St Loc Int β) (path : List (Move Int))
-    (acc : Array (List (Move Int))) (R : MoveFilter β := noFilter) : Array (List (Move Int)) := Id.run do
+    (acc : Array (List (Move Int))) (R : MoveFilter β := noFilter) (wide : Nat := 0) : Array (List (Move Int)) := Id.run do
   let mut acc := acc
-  let nexts := if depth > 0 then legalMoves M nSinks s R else []
+  let nexts := if depth > 0 then legalMoves M nSinks s R wide else []
   if nexts.isEmpty then return acc.push path.reverse
   for (m, s2) in nexts do
-    acc := leaves M nSinks (depth - 1) s2 (m :: path) acc R
+    acc := leaves M nSinks (depth - 1) s2 (m :: path) acc R wide
   return acc
 
 /-- xorshift64* -/
@@ -93,13 +94,13 @@ def rngNext (x : UInt64) : UInt64 :=
   x * 2685821657736338717
 
 /-- one seeded random walk of at most `len` moves; nested reactions (moves made while a call is open) are favoured -/
-partial def randomWalk {St Loc β} (M : Machine St Loc Int β) (nSinks len : Nat) (seed : UInt64) (R : MoveFilter β := noFilter) :
-    List (Move Int) := Id.run do
+partial def randomWalk {St Loc β} (M : Machine St Loc Int β) (nSinks len : Nat) (seed : UInt64) (R : MoveFilter β := noFilter)
+    (wide : Nat := 0) : List (Move Int) := Id.run do
   let mut s := Sys.init M
   let mut r := if seed == 0 then 88172645463325252 else seed
   let mut path : List (Move Int) := []
   for _ in [0:len] do
-    let nexts := legalMoves M nSinks s R
+    let nexts := legalMoves M nSinks s R wide
     if nexts.isEmpty then break
     -- weight: a `ret` gets weight 2, anything else 3 when nested (keeps handlers open longer), 2 at top level
     let ws := nexts.map fun (m, _) => match m with | .ret => 2 | _ => if s.stack.isEmpty then 2 else 3
